@@ -7,6 +7,7 @@ shifts and detector parameters.  The only hypotheses are `c² + s² = 1` per ang
 unit length / orthogonality of the vectors that the constructors normalise.
 -/
 import OdlModel.Model.Geometry
+import OdlModel.Lemmas.Geometry
 import Mathlib.Tactic.Ring
 import Mathlib.Tactic.LinearCombination
 import Mathlib.Tactic.FieldSimp
@@ -74,3 +75,467 @@ theorem C19.rot_axis_fixed {K : Type} [CommRing K] (a : V3 K) (c s : K)
   obtain ⟨x, y, z⟩ := a
   simp only [V3.normSq, V3.dot] at ha
   ext <;> simp only [axisRot, M3.mulVec] <;> grind
+
+/-- `rotation_matrix_from_to(u, v)` (3d, generic branch; used by `transform_system` to
+derive the default initial vectors from a given axis / position, and by the curved
+detectors) is a rotation and takes `u` to `v`, for all unit vectors that are not opposite. -/
+theorem C19.from_to_maps {K : Type} [Field K] (u v : V3 K)
+    (hu : u.normSq = 1) (hv : v.normSq = 1) (hc : 1 + V3.dot u v ≠ 0) :
+    (rotFromTo u v).mulVec u = v ∧ (rotFromTo u v).transpose.mul (rotFromTo u v) = M3.one := by
+  obtain ⟨a, b, c⟩ := u
+  obtain ⟨x, y, z⟩ := v
+  simp only [V3.normSq, V3.dot] at hu hv hc
+  constructor
+  · ext <;> simp only [rotFromTo, M3.mulVec, V3.cross, V3.dot] <;> field_simp <;> grind
+  · ext <;> simp only [rotFromTo, M3.mul, M3.transpose, M3.one, V3.cross, V3.dot] <;>
+      field_simp <;> grind
+
+example : (rotFromTo (⟨0, 0, 1⟩ : V3 ℚ) ⟨2 / 7, 3 / 7, 6 / 7⟩).mulVec ⟨0, 0, 1⟩ = ⟨2 / 7, 3 / 7, 6 / 7⟩ :=
+  (C19.from_to_maps _ _ (by norm_num [V3.normSq, V3.dot]) (by norm_num [V3.normSq, V3.dot])
+    (by norm_num [V3.dot])).1
+
+/-! ## detectors -/
+
+/-- The intrinsic rotation of the curved 3d detectors is a rotation taking the initial axes
+`(0,-1,0)`, `(0,0,1)` to the detector axes, for every orthonormal pair of axes; the surface
+passes through the origin at parameter 0 with tangents `radius·a0` and `a1` (cylinder) —
+"aligned with the axes" like a flat detector. -/
+theorem C19.curved_rot_aligned {K : Type} [CommRing K] (a0 a1 : V3 K) (r : K)
+    (h0 : a0.normSq = 1) (h1 : a1.normSq = 1) (h01 : V3.dot a0 a1 = 0) :
+    IsRot3 (curvedRot a0 a1) ∧
+    (curvedRot a0 a1).mulVec ⟨0, -1, 0⟩ = a0 ∧ (curvedRot a0 a1).mulVec ⟨0, 0, 1⟩ = a1 ∧
+    (Det3.cyl a0 a1 r).surface ⟨0, 0, 1, 0, 1, 0⟩ = V3.zero ∧
+    (Det3.cyl a0 a1 r).deriv0 ⟨0, 0, 1, 0, 1, 0⟩ = V3.smul r a0 ∧
+    (Det3.cyl a0 a1 r).deriv1 ⟨0, 0, 1, 0, 1, 0⟩ = a1 ∧
+    (Det3.sph a0 a1 r).surface ⟨0, 0, 1, 0, 1, 0⟩ = V3.zero ∧
+    (Det3.sph a0 a1 r).deriv0 ⟨0, 0, 1, 0, 1, 0⟩ = V3.smul r a0 ∧
+    (Det3.sph a0 a1 r).deriv1 ⟨0, 0, 1, 0, 1, 0⟩ = V3.smul r a1 := by
+  obtain ⟨x, y, z⟩ := a0
+  obtain ⟨u, v, w⟩ := a1
+  simp only [V3.normSq, V3.dot] at h0 h1 h01
+  refine ⟨⟨?_, ?_⟩, ?_, ?_, ?_, ?_, ?_, ?_, ?_, ?_⟩
+  · ext <;> simp only [curvedRot, M3.ofCols, V3.cross, V3.neg, M3.transpose, M3.mul, M3.one] <;> grind
+  · simp only [curvedRot, M3.ofCols, V3.cross, V3.neg, M3.det]; grind
+  all_goals
+    ext <;> simp only [Det3.surface, Det3.deriv0, Det3.deriv1, curvedRot, M3.ofCols, V3.cross,
+      V3.neg, V3.add, V3.smul, V3.zero, M3.mulVec] <;> ring
+
+example : IsRot3 (curvedRot (⟨2 / 7, 3 / 7, 6 / 7⟩ : V3 ℚ) ⟨3 / 7, -6 / 7, 2 / 7⟩) :=
+  (C19.curved_rot_aligned _ _ 1 (by norm_num [V3.normSq, V3.dot]) (by norm_num [V3.normSq, V3.dot])
+    (by norm_num [V3.dot])).1
+
+/-- `CircularDetector`: its intrinsic rotation is a rotation for every unit axis, the curve
+passes through the origin at parameter 0 with tangent `radius·axis`, every point has
+distance `radius` from the circle centre `translation`, and the derivative has length
+`radius` (`surface_measure`). -/
+theorem C19.circular_detector {K : Type} [CommRing K] (a : V2 K) (r c s : K)
+    (ha : a.normSq = 1) (hc : c * c + s * s = 1) :
+    IsRot2 (circRot a) ∧
+    (Det2.circ a r).surface ⟨0, 1, 0⟩ = V2.zero ∧
+    (Det2.circ a r).deriv ⟨0, 1, 0⟩ = V2.smul r a ∧
+    V2.normSq (V2.sub ((Det2.circ a r).surface ⟨0, c, s⟩)
+      (V2.smul (-r) ((circRot a).mulVec ⟨1, 0⟩))) = r * r ∧
+    V2.normSq ((Det2.circ a r).deriv ⟨0, c, s⟩) = r * r := by
+  obtain ⟨x, y⟩ := a
+  simp only [V2.normSq, V2.dot] at ha
+  refine ⟨⟨?_, ?_⟩, ?_, ?_, ?_, ?_⟩
+  · ext <;> simp only [circRot, M2.transpose, M2.mul, M2.one] <;> grind
+  · simp only [circRot, M2.det]; grind
+  · ext <;> simp only [Det2.surface, circRot, V2.add, V2.smul, V2.zero, M2.mulVec] <;> ring
+  · ext <;> simp only [Det2.deriv, circRot, V2.smul, M2.mulVec] <;> ring
+  · simp only [Det2.surface, circRot, V2.add, V2.sub, V2.smul, V2.normSq, V2.dot, M2.mulVec]
+    grind
+  · simp only [Det2.deriv, circRot, V2.normSq, V2.dot, M2.mulVec]
+    grind
+
+/-! ## composition: reference point, rotation, detector surface -/
+
+/-- `det_point_position = det_refpoint + rotation_matrix · detector.surface` for every
+class, every rotation matrix, every detector (flat or curved) and all parameters.  (In the
+model this is the definition; that the CODE computes the same numbers is the correspondence
+run, where `det_point_position`, `det_refpoint`, `rotation_matrix` and `surface` are
+evaluated separately on the real objects.) -/
+theorem C19.det_point_decomp {K : Type} [CommRing K] :
+    (∀ (g : Par2 K) R p, g.detPoint R p = V2.add (g.refpoint R) (R.mulVec (g.det.surface p))) ∧
+    (∀ (g : Par3 K) R p, g.detPoint R p = V3.add (g.refpoint R) (R.mulVec (g.det.surface p))) ∧
+    (∀ (g : Fan K) R sh p,
+      g.detPoint R sh p = V2.add (g.refpoint R sh) (R.mulVec (g.det.surface p))) ∧
+    (∀ (g : Cone K) R turns sh p,
+      g.detPoint R turns sh p = V3.add (g.refpoint R turns sh) (R.mulVec (g.det.surface p))) :=
+  ⟨fun _ _ _ => rfl, fun _ _ _ => rfl, fun _ _ _ _ => rfl, fun _ _ _ _ _ => rfl⟩
+
+/-- Divergent beams: `det_to_src(normalized=False) = src_position - det_point_position`, so
+`det_point_position + det_to_src = src_position`, for fan and cone beam geometries with
+arbitrary radii, pitch, offsets, source and detector shifts, flat or curved detectors. -/
+theorem C19.src_det_consistent {K : Type} [CommRing K] :
+    (∀ (g : Fan K) R ssh dsh p,
+      V2.add (g.detPoint R dsh p) (g.detToSrc R ssh dsh p) = g.srcPos R ssh) ∧
+    (∀ (g : Cone K) R turns ssh dsh p,
+      V3.add (g.detPoint R turns dsh p) (g.detToSrc R turns ssh dsh p) = g.srcPos R turns ssh) := by
+  constructor
+  · intro g R ssh dsh p
+    ext <;> simp only [Fan.detToSrc, V2.add, V2.sub] <;> ring
+  · intro g R turns ssh dsh p
+    ext <;> simp only [Cone.detToSrc, V3.add, V3.sub] <;> ring
+
+/-- The normalised `det_to_src` (`v / ‖v‖`): for ANY scalar `k` with `k²·‖v‖² = 1` (in
+particular `k = 1/‖v‖ > 0`) the vector `k·v` has unit length; it is by construction the
+multiple `k` of `src_position - det_point_position`. -/
+theorem C19.normalised_unit {K : Type} [CommRing K] (k : K) :
+    (∀ v : V2 K, k * k * v.normSq = 1 → (V2.smul k v).normSq = 1) ∧
+    (∀ v : V3 K, k * k * v.normSq = 1 → (V3.smul k v).normSq = 1) := by
+  constructor
+  · intro v h
+    simp only [V2.normSq, V2.dot, V2.smul] at *
+    linear_combination h
+  · intro v h
+    simp only [V3.normSq, V3.dot, V3.smul] at *
+    linear_combination h
+
+example : (V2.smul (1 / 5 : ℚ) ⟨3, 4⟩).normSq = 1 :=
+  (C19.normalised_unit (1 / 5 : ℚ)).1 ⟨3, 4⟩ (by norm_num [V2.normSq, V2.dot])
+
+/-! ## parallel beams -/
+
+/-- Parallel beam geometries (flat detectors): the ray direction `det_to_src` does not
+depend on the detector point. -/
+theorem C19.parallel_dir_const {K : Type} [CommRing K] :
+    (∀ (pos t a : V2 K) R (p q : P1 K),
+      (Par2.mk pos t (.flat a)).detToSrcRaw R p = (Par2.mk pos t (.flat a)).detToSrcRaw R q) ∧
+    (∀ (pos t a0 a1 : V3 K) R (p q : P2 K),
+      (Par3.mk pos t (.flat a0 a1)).detToSrcRaw R p =
+        (Par3.mk pos t (.flat a0 a1)).detToSrcRaw R q) :=
+  ⟨fun _ _ _ _ _ _ => rfl, fun _ _ _ _ _ _ _ => rfl⟩
+
+/-- Parallel beam geometries: for every orthonormal rotation matrix (all three
+constructions, by `rot_orthonormal_*`) the ray direction is orthogonal to the rotated
+detector axes, and it has the length of the un-rotated normal (`‖axis‖ = 1` in 2d,
+`‖a0 × a1‖` in 3d, which `surface_normal` divides by), at every detector point, also for
+curved detectors (orthogonal to the surface derivative there). -/
+theorem C19.parallel_dir_orth_axes {K : Type} [CommRing K] :
+    (∀ (g : Par2 K) (R : M2 K) (p : P1 K), R.transpose.mul R = M2.one →
+      V2.dot (g.detToSrcRaw R p) (R.mulVec (g.det.deriv p)) = 0 ∧
+      (g.detToSrcRaw R p).normSq = (g.det.deriv p).normSq) ∧
+    (∀ (g : Par3 K) (R : M3 K) (p : P2 K), R.transpose.mul R = M3.one →
+      V3.dot (g.detToSrcRaw R p) (R.mulVec (g.det.deriv0 p)) = 0 ∧
+      V3.dot (g.detToSrcRaw R p) (R.mulVec (g.det.deriv1 p)) = 0 ∧
+      (g.detToSrcRaw R p).normSq = (V3.cross (g.det.deriv0 p) (g.det.deriv1 p)).normSq) := by
+  constructor
+  · intro g R p h
+    constructor
+    · rw [Par2.detToSrcRaw, M2.dot_mulVec R h]
+      simp only [Det2.normalRaw, V2.dot, V2.neg, perp2]; ring
+    · rw [Par2.detToSrcRaw, M2.normSq_mulVec R h]
+      simp only [Det2.normalRaw, V2.normSq, V2.dot, V2.neg, perp2]; ring
+  · intro g R p h
+    refine ⟨?_, ?_, ?_⟩
+    · rw [Par3.detToSrcRaw, M3.dot_mulVec R h]
+      simp only [Det3.normalRaw, V3.dot, V3.cross]; ring
+    · rw [Par3.detToSrcRaw, M3.dot_mulVec R h]
+      simp only [Det3.normalRaw, V3.dot, V3.cross]; ring
+    · rw [Par3.detToSrcRaw, M3.normSq_mulVec R h]; rfl
+
+/-- for flat detectors `deriv` IS the detector axis, so the statement above reads
+`⟨det_to_src, det_axis(angle)⟩ = 0`. -/
+example (a : V2 ℚ) (p : P1 ℚ) : (Det2.flat a).deriv p = a := rfl
+
+/-- The rotated detector axes `det_axes(angle) = R·axes` keep their lengths and mutual
+inner products (unit length, and orthogonal if the initial axes are). -/
+theorem C19.det_axes_rotated {K : Type} [CommRing K] :
+    (∀ (g : Par2 K) (R : M2 K), R.transpose.mul R = M2.one →
+      (g.detAxis R).normSq = g.det.axis.normSq) ∧
+    (∀ (g : Par3 K) (R : M3 K), R.transpose.mul R = M3.one →
+      (g.detAxis0 R).normSq = g.det.a0.normSq ∧ (g.detAxis1 R).normSq = g.det.a1.normSq ∧
+      V3.dot (g.detAxis0 R) (g.detAxis1 R) = V3.dot g.det.a0 g.det.a1) ∧
+    (∀ (g : Cone K) (R : M3 K), R.transpose.mul R = M3.one →
+      (g.detAxis0 R).normSq = g.det.a0.normSq ∧ (g.detAxis1 R).normSq = g.det.a1.normSq ∧
+      V3.dot (g.detAxis0 R) (g.detAxis1 R) = V3.dot g.det.a0 g.det.a1) := by
+  refine ⟨fun g R h => M2.normSq_mulVec R h _, fun g R h => ⟨M3.normSq_mulVec R h _,
+    M3.normSq_mulVec R h _, M3.dot_mulVec R h _ _⟩, fun g R h => ⟨M3.normSq_mulVec R h _,
+    M3.normSq_mulVec R h _, M3.dot_mulVec R h _ _⟩⟩
+
+/-! ## fan / cone beam: circles and helices -/
+
+/-- `FanBeamGeometry` without shift functions: for every orthonormal `R` and unit
+`src_to_det_init`, the source lies on the circle of radius `src_radius` and the detector
+reference point on the circle of radius `det_radius` around `translation`, on opposite
+sides of the centre. -/
+theorem C19.fan_radii {K : Type} [CommRing K] (g : Fan K) (R : M2 K)
+    (hR : R.transpose.mul R = M2.one) (hd : g.d.normSq = 1) :
+    (V2.sub (g.srcPos R V2.zero) g.t).normSq = g.rs * g.rs ∧
+    (V2.sub (g.refpoint R V2.zero) g.t).normSq = g.rd * g.rd ∧
+    V2.smul g.rd (V2.sub (g.srcPos R V2.zero) g.t) =
+      V2.smul (-g.rs) (V2.sub (g.refpoint R V2.zero) g.t) := by
+  have e1 : V2.sub (g.srcPos R V2.zero) g.t = R.mulVec (V2.smul (-g.rs) g.d) := by
+    ext <;> simp only [Fan.srcPos, V2.add, V2.sub, V2.smul, V2.neg, V2.zero, M2.mulVec] <;> ring
+  have e2 : V2.sub (g.refpoint R V2.zero) g.t = R.mulVec (V2.smul g.rd g.d) := by
+    ext <;> simp only [Fan.refpoint, V2.add, V2.sub, V2.smul, V2.zero, M2.mulVec] <;> ring
+  rw [e1, e2, M2.normSq_mulVec R hR, M2.normSq_mulVec R hR]
+  simp only [V2.normSq, V2.dot, V2.smul] at hd ⊢
+  refine ⟨by linear_combination (g.rs * g.rs) * hd, by linear_combination (g.rd * g.rd) * hd, ?_⟩
+  ext <;> simp only [M2.mulVec] <;> ring
+
+/-- `ConeBeamGeometry` (circular and helical, arbitrary unit axis, pitch and offset) without
+shift functions: at every angle the source has distance `src_radius` and the detector
+reference point distance `det_radius` from the point
+`translation + (offset_along_axis + pitch·angle/2π)·axis` of the rotation axis, on opposite
+sides of it. -/
+theorem C19.cone_radii {K : Type} [CommRing K] (g : Cone K) (R : M3 K) (turns : K)
+    (hR : R.transpose.mul R = M3.one) (hd : g.d.normSq = 1) :
+    let centre := V3.add g.t (V3.smul (g.off + g.pitch * turns) g.axis)
+    (V3.sub (g.srcPos R turns V3.zero) centre).normSq = g.rs * g.rs ∧
+    (V3.sub (g.refpoint R turns V3.zero) centre).normSq = g.rd * g.rd ∧
+    V3.smul g.rd (V3.sub (g.srcPos R turns V3.zero) centre) =
+      V3.smul (-g.rs) (V3.sub (g.refpoint R turns V3.zero) centre) := by
+  intro centre
+  have e1 : V3.sub (g.srcPos R turns V3.zero) centre = R.mulVec (V3.smul (-g.rs) g.d) := by
+    ext <;> simp only [centre, Cone.srcPos, V3.add, V3.sub, V3.smul, V3.neg, V3.zero, V3.cross,
+      M3.mulVec] <;> ring
+  have e2 : V3.sub (g.refpoint R turns V3.zero) centre = R.mulVec (V3.smul g.rd g.d) := by
+    ext <;> simp only [centre, Cone.refpoint, V3.add, V3.sub, V3.smul, V3.neg, V3.zero, V3.cross,
+      M3.mulVec] <;> ring
+  rw [e1, e2, M3.normSq_mulVec R hR, M3.normSq_mulVec R hR]
+  simp only [V3.normSq, V3.dot, V3.smul] at hd ⊢
+  refine ⟨by linear_combination (g.rs * g.rs) * hd, by linear_combination (g.rd * g.rd) * hd, ?_⟩
+  ext <;> simp only [M3.mulVec] <;> ring
+
+example : ∃ g : Cone ℚ, g.d.normSq = 1 ∧ g.pitch ≠ 0 ∧ g.rs ≠ 0 :=
+  ⟨⟨⟨2 / 7, 3 / 7, 6 / 7⟩, ⟨3 / 7, -6 / 7, 2 / 7⟩, ⟨1, 2, 3⟩, 5, 4, 2, 1, 1, .flat ⟨1, 0, 0⟩ ⟨0, 0, 1⟩⟩,
+    by norm_num [V3.normSq, V3.dot], by norm_num, by norm_num⟩
+
+/-! ## `frommatrix`: the geometry is the default one moved by `x ↦ Qx + b` -/
+
+/-- `frommatrix` stores `det_pos_init = M·default + b` and `translation = b`; at rotation
+angle 0 the reference point is that position. -/
+theorem C19.frommatrix_initial {K : Type} [CommRing K] (M : M2 K) (b : V2 K) (M3' : M3 K)
+    (b3 : V3 K) :
+    (par2FromMatrix M b).pos = V2.add (M.mulVec ⟨0, 1⟩) b ∧ (par2FromMatrix M b).t = b ∧
+    (par3FromMatrix M3' b3).pos = V3.add (M3'.mulVec ⟨0, 1, 0⟩) b3 ∧
+    (par3FromMatrix M3' b3).t = b3 ∧
+    (∀ det, (Par2.mk (par2FromMatrix M b).pos b det).refpoint (euler2 1 0) =
+      (par2FromMatrix M b).pos) := by
+  refine ⟨rfl, rfl, rfl, rfl, ?_⟩
+  intro det
+  ext <;> simp only [Par2.refpoint, par2FromMatrix, par2Ctor, euler2, V2.add, V2.sub, M2.mulVec] <;>
+    ring
+
+/-- Rigid-motion consistency of `frommatrix` for the axis-oriented 3d classes: if the left
+block `Q` of `init_matrix` is a rotation and `b` its last column, then the geometry built
+from the transformed vectors (`axis ↦ Q·axis`, positions `↦ Q·p + b`, translation `b`)
+has, at every angle, reference points and source positions that are the images under
+`x ↦ Qx + b` of those of the untransformed geometry (translation 0), and rotation matrices
+conjugated by `Q`. -/
+theorem C19.frommatrix_consistent {K : Type} [CommRing K] (Q : M3 K)
+    (hQ : Q.transpose.mul Q = M3.one) (hdet : Q.det = 1) (b axis p0 : V3 K) (c s : K)
+    (det det' : Det3 K) :
+    (axisRot (Q.mulVec axis) c s).mul Q = Q.mul (axisRot axis c s) ∧
+    (Par3.mk (V3.add (Q.mulVec p0) b) b det').refpoint (axisRot (Q.mulVec axis) c s) =
+      V3.add (Q.mulVec ((Par3.mk p0 V3.zero det).refpoint (axisRot axis c s))) b := by
+  have h := axisRot_conj Q hQ hdet axis c s
+  refine ⟨h, ?_⟩
+  have h2 : (axisRot (Q.mulVec axis) c s).mulVec (Q.mulVec p0) =
+      Q.mulVec ((axisRot axis c s).mulVec p0) := by
+    rw [← M3.mul_mulVec, ← M3.mul_mulVec, h]
+  have e1 : V3.sub (V3.add (Q.mulVec p0) b) b = Q.mulVec p0 := by
+    ext <;> simp only [V3.add, V3.sub] <;> ring
+  have e2 : V3.sub p0 V3.zero = p0 := by
+    ext <;> simp only [V3.sub, V3.zero] <;> ring
+  simp only [Par3.refpoint, e1, e2, h2]
+  ext <;> simp only [V3.add, V3.zero, M3.mulVec] <;> ring
+
+/-- The 2d analogue (`Parallel2dGeometry.frommatrix` with a rotation `Q = euler2 c' s'`,
+which commutes with the motion rotation). -/
+theorem C19.frommatrix_consistent_2d {K : Type} [CommRing K] (c' s' c s : K) (b p0 : V2 K)
+    (det det' : Det2 K) :
+    (Par2.mk (V2.add ((euler2 c' s').mulVec p0) b) b det').refpoint (euler2 c s) =
+      V2.add ((euler2 c' s').mulVec ((Par2.mk p0 V2.zero det).refpoint (euler2 c s))) b := by
+  ext <;> simp only [Par2.refpoint, euler2, V2.add, V2.sub, V2.zero, M2.mulVec] <;> ring
+
+/-! ## `__getitem__`
+
+Slicing by angle index keeps all constants of the geometry and replaces the angle
+partition (C14) — IF the constructor call made by `__getitem__` reproduces the state.  For
+the divergent classes the constants are passed through unchanged (checked on the real code
+by the slicing stream).  For the parallel classes the absolute `det_pos_init` is re-derived,
+and this is where the code is wrong for non-zero translations (findings F19a/F19b):
+
+  full statement (FALSE for the code as it is):
+    ∀ p t, (par2Getitem (par2Ctor p t)).2.pos = (par2Ctor p t).pos
+         ∧ (par2Getitem (par2Ctor p t)).1 = par2Ctor p t
+-/
+
+/-- `Parallel2dGeometry.__getitem__`: the slice has the right `det_pos_init` (hence the
+right reference points, which are `t + R·(pos - t)`) and the receiver is unchanged IF AND
+ONLY IF the translation is zero. -/
+theorem C19.getitem_angles_par2d_partial {K : Type} [CommRing K] (p t : V2 K) :
+    ((par2Getitem (par2Ctor p t)).2.pos = (par2Ctor p t).pos ↔ t = V2.zero) ∧
+    ((par2Getitem (par2Ctor p t)).1.pos = (par2Ctor p t).pos ↔ t = V2.zero) ∧
+    (par2Getitem (par2Ctor p t)).2.t = t := by
+  obtain ⟨px, py⟩ := p
+  obtain ⟨tx, ty⟩ := t
+  simp only [par2Getitem, par2Ctor, V2.add, V2.zero, V2.mk.injEq]
+  refine ⟨⟨fun h => ⟨by linear_combination h.1, by linear_combination h.2⟩,
+    fun h => ⟨by rw [h.1]; ring, by rw [h.2]; ring⟩⟩,
+    ⟨fun h => ⟨by linear_combination h.1, by linear_combination h.2⟩,
+    fun h => ⟨by rw [h.1]; ring, by rw [h.2]; ring⟩⟩, trivial⟩
+
+/-- Counterexample on the model (finding F19a): default `det_pos_init = (0, 1)`,
+`translation = (1, 0)`: the slice's reference point at angle 0 is `(2, 1)`, the original's
+was `(1, 1)`, and the original's has become `(2, 1)` as well. -/
+theorem C19.getitem_angles_par2d_fails :
+    let g := par2Ctor (⟨0, 1⟩ : V2 ℚ) ⟨1, 0⟩
+    let det : Det2 ℚ := .flat ⟨1, 0⟩
+    (Par2.mk g.pos g.t det).refpoint (euler2 1 0) = ⟨1, 1⟩ ∧
+    (Par2.mk (par2Getitem g).2.pos (par2Getitem g).2.t det).refpoint (euler2 1 0) = ⟨2, 1⟩ ∧
+    (Par2.mk (par2Getitem g).1.pos (par2Getitem g).1.t det).refpoint (euler2 1 0) = ⟨2, 1⟩ := by
+  simp only [par2Getitem, par2Ctor, Par2.refpoint, euler2, V2.add, V2.sub, M2.mulVec]
+  norm_num
+
+/-- `Parallel3dAxisGeometry.__getitem__`: with `det_pos_init` not given, every slice is
+right.  With `det_pos_init = p` given, the FIRST slice is right iff the argument was not a
+float ndarray (no aliasing) or the translation is zero; and even without aliasing a SECOND
+slice of the same geometry is right iff the translation is zero. -/
+theorem C19.getitem_angles_par3d_partial {K : Type} [CommRing K] (dflt p t : V3 K)
+    (aliased : Bool) :
+    let g0 := par3Ctor dflt none false t
+    let g := par3Ctor dflt (some p) aliased t
+    ((par3Getitem dflt g0).2.pos = g0.pos ∧ (par3Getitem dflt g0).1 = g0) ∧
+    ((par3Getitem dflt g).2.pos = g.pos ↔ (aliased = false ∨ t = V3.zero)) ∧
+    ((par3Getitem dflt (par3Getitem dflt (par3Ctor dflt (some p) false t)).1).2.pos =
+      (par3Ctor dflt (some p) false t).pos ↔ t = V3.zero) := by
+  obtain ⟨px, py, pz⟩ := p
+  obtain ⟨tx, ty, tz⟩ := t
+  have key : ∀ a b : K, a + b + b = a + b ↔ b = 0 := fun a b =>
+    ⟨fun h => by linear_combination h, fun h => by rw [h]; ring⟩
+  refine ⟨⟨rfl, rfl⟩, ?_, ?_⟩
+  · cases aliased <;>
+      simp [par3Getitem, par3Ctor, V3.add, V3.zero, key]
+  · simp [par3Getitem, par3Ctor, V3.add, V3.zero, key]
+
+/-! ## factories -/
+
+/-- `parallel_beam_geometry` (2d): the detector `[-rho, rho]` covers the volume for every
+angle: a point `x` of the plane with `‖x‖ ≤ rho` is seen by the default geometry
+(`det_pos_init = (0,1)`, `det_axis_init = (1,0)`, no translation) at a detector coordinate
+in `[-rho, rho]`, and the ray through that detector point does pass through `x`. -/
+theorem C19.factory_covers_volume_parallel {K : Type} [Field K] [LinearOrder K]
+    [IsStrictOrderedRing K] (c s rho : K) (x : V2 K) (hc : c * c + s * s = 1)
+    (hrho : 0 ≤ rho) (hx : x.normSq ≤ rho * rho) :
+    let g : Par2 K := ⟨⟨0, 1⟩, ⟨0, 0⟩, .flat ⟨1, 0⟩⟩
+    let u := g.detCoord (euler2 c s) x
+    (-parHalfWidth rho ≤ u ∧ u ≤ parHalfWidth rho) ∧
+    (∃ lam : K, x = V2.add (g.detPoint (euler2 c s) ⟨u, 0, 0⟩)
+      (V2.smul lam (g.detToSrcRaw (euler2 c s) ⟨u, 0, 0⟩))) := by
+  obtain ⟨x1, x2⟩ := x
+  simp only [V2.normSq, V2.dot] at hx
+  simp only [Par2.detCoord, Par2.refpoint, Par2.detAxis, Par2.detPoint, Par2.detToSrcRaw,
+    Det2.axis, Det2.surface, Det2.normalRaw, Det2.deriv, perp2, euler2, V2.dot, V2.sub, V2.add,
+    V2.smul, V2.neg, M2.mulVec, parHalfWidth]
+  refine ⟨?_, ?_⟩
+  · have h1 : (x1 * c + x2 * s) ^ 2 ≤ rho ^ 2 := by
+      nlinarith [sq_nonneg (x1 * s - x2 * c)]
+    have h2 := abs_le_of_sq_le_sq' h1 hrho
+    constructor <;> nlinarith [h2.1, h2.2]
+  · refine ⟨x1 * s - x2 * c + 1, ?_⟩
+    ext <;> simp only [] <;> grind
+
+/-- `cone_beam_geometry` / `helical_geometry`: where a flat detector sees a point
+(`fanDetCoord`), proved against the fan-beam model: the ray from the source through the
+point with coordinates `(xt, xc)` in the rotating frame hits the detector at parameter
+`(rs + rd)·xt/(rs + xc)`. -/
+theorem C19.fan_det_coord {K : Type} [Field K] (c s rs rd xc xt : K) (h : rs + xc ≠ 0) :
+    let g : Fan K := ⟨⟨0, 1⟩, ⟨0, 0⟩, rs, rd, .flat ⟨1, 0⟩⟩
+    let R := euler2 c s
+    let x := R.mulVec ⟨xt, xc⟩
+    let src := g.srcPos R V2.zero
+    V2.add src (V2.smul ((rs + rd) / (rs + xc)) (V2.sub x src)) =
+      g.detPoint R V2.zero ⟨fanDetCoord rs rd xc xt, 0, 0⟩ := by
+  ext <;> simp only [Fan.srcPos, Fan.detPoint, Fan.refpoint, Det2.surface, fanDetCoord, euler2,
+    V2.add, V2.sub, V2.smul, V2.neg, V2.zero, M2.mulVec] <;> field_simp <;> ring
+
+/-- PARTIAL coverage statement for `cone_beam_geometry` (fan beam, horizontal direction):
+the half-width `rho·(rs + rd)/rs` covers the points of the disc of radius `rho` in the half
+plane BEHIND the rotation centre as seen from the source (`xc ≥ 0`).
+
+  full statement (FALSE, finding F19c):
+    ∀ xc xt, xt² + xc² ≤ rho² → |fanDetCoord rs rd xc xt| ≤ fanHalfWidth rho rs rd
+  (needed: `rho·(rs + rd)/√(rs² - rho²)`). -/
+theorem C19.factory_covers_volume_fan_partial {K : Type} [Field K] [LinearOrder K]
+    [IsStrictOrderedRing K] (rho rs rd xc xt : K) (hrho : 0 ≤ rho) (hrs : rho < rs)
+    (hrd : 0 ≤ rd) (hx : xt * xt + xc * xc ≤ rho * rho) (hxc : 0 ≤ xc) :
+    -fanHalfWidth rho rs rd ≤ fanDetCoord rs rd xc xt ∧
+      fanDetCoord rs rd xc xt ≤ fanHalfWidth rho rs rd := by
+  have hrs0 : 0 < rs := lt_of_le_of_lt hrho hrs
+  have hden : 0 < rs + xc := by linarith
+  have hA : 0 ≤ rs + rd := by linarith
+  have h1 : xt ^ 2 ≤ rho ^ 2 := by nlinarith [mul_self_nonneg xc]
+  have h2 := abs_le_of_sq_le_sq' h1 hrho
+  have key : ∀ y : K, y ≤ rho → (rs + rd) * y / (rs + xc) ≤ rho * (rs + rd) / rs := by
+    intro y hy
+    rw [div_le_div_iff₀ hden hrs0]
+    have h3 : y * rs ≤ rho * (rs + xc) := by
+      nlinarith [mul_nonneg hrho hxc, mul_nonneg (sub_nonneg.mpr hy) hrs0.le]
+    nlinarith [mul_le_mul_of_nonneg_left h3 hA]
+  simp only [fanHalfWidth, fanDetCoord]
+  constructor
+  · have h4 := key (-xt) (by linarith [h2.1])
+    have e : (rs + rd) * -xt / (rs + xc) = -((rs + rd) * xt / (rs + xc)) := by ring
+    rw [e] at h4
+    linarith
+  · exact key xt h2.2
+
+/-- Counterexample on the model (finding F19c): `rho = 5`, `src_radius = det_radius = 10`,
+the point `(xt, xc) = (4, -3)` of the circle of radius 5 is seen at `80/7 > 10 = w/2`. -/
+theorem C19.factory_covers_volume_fan_fails :
+    (4 : ℚ) * 4 + (-3) * (-3) ≤ 5 * 5 ∧
+    fanHalfWidth (5 : ℚ) 10 10 < fanDetCoord (10 : ℚ) 10 (-3) 4 := by
+  norm_num [fanHalfWidth, fanDetCoord]
+
+/-- Finding F19c, vertical direction of `cone_beam_geometry` (3d): before rounding up to a
+whole number of pixels, the half height `sin(arctan(zmax/dist))·(rs + rd)` is ALWAYS smaller
+than the coordinate `zmax·(rs + rd)/dist` at which the nearest top corner of the volume is
+seen (`dist = rs - rho`, `hyp² = dist² + zmax²`). -/
+theorem C19.factory_cone_height_fails {K : Type} [Field K] [LinearOrder K]
+    [IsStrictOrderedRing K] (zmax dist hyp rs rd : K) (hz : 0 < zmax) (hd : 0 < dist)
+    (hh : 0 < hyp) (hyp2 : hyp * hyp = dist * dist + zmax * zmax) (hr : 0 < rs + rd) :
+    coneHalfHeightRaw zmax hyp rs rd < zmax * (rs + rd) / dist := by
+  have hlt : dist < hyp := by nlinarith
+  simp only [coneHalfHeightRaw]
+  rw [div_mul_eq_mul_div, div_lt_div_iff₀ hh hd]
+  nlinarith [mul_pos hz hr, mul_pos (mul_pos hz hr) (sub_pos.mpr hlt)]
+
+/-! ## shapes of vectorised evaluation -/
+
+/-- Single parameters (all components scalar) give a single vector of shape `(ndim,)` for
+every class (1, 2 or 3 motion parameters; 1 or 2 detector parameters; flat or curved). -/
+theorem C19.vectorised_shape_scalars (ndim : Nat) (curved : Bool) :
+    evalShape [[]] [[]] ndim curved = some [ndim] ∧
+    evalShape [[]] [[], []] ndim curved = some [ndim] ∧
+    evalShape [[], []] [[], []] ndim false = some [ndim] ∧
+    evalShape [[], [], []] [[], []] ndim false = some [ndim] := by
+  cases curved <;> simp [evalShape, surfShape, bcastAll, bcast, bcastRev, bcastDim, atLeast1]
+
+/-- One-dimensional stacks of `n` parameter pairs give shape `(n, ndim)`; an `(n,1)` stack
+of angles against a `(1,m)` stack of detector parameters gives the outer-product shape
+`(n, m, ndim)` — equal to the documented `broadcast(mparam, dparam).shape + (ndim,)`. -/
+theorem C19.vectorised_shape_arrays (n m ndim : Nat) :
+    evalShape [[n]] [[n]] ndim false = some [n, ndim] ∧
+    evalShape [[n, 1]] [[1, m]] ndim false = some [n, m, ndim] ∧
+    docShape [[n, 1]] [[1, m]] ndim = some [n, m, ndim] ∧
+    evalShape [[n]] [[n], [n]] ndim true = some [n, ndim] := by
+  by_cases hn : n = 1 <;> by_cases hm : m = 1 <;>
+    simp [evalShape, docShape, surfShape, bcastAll, bcast, bcastRev, bcastDim, atLeast1, hn, hm]
+  all_goals grind
+
+/-- The code's shape logic deviates from the documented broadcasting in two ways (findings
+F19e, F19d): parameters with different numbers of array axes are rejected, and the curved
+two-parameter detectors reject detector parameters whose components have different shapes.
+
+  full statement (FALSE for the code as it is):
+    ∀ m d ndim curved sh, docShape m d ndim = some sh → evalShape m d ndim curved = some sh -/
+theorem C19.vectorised_shape_fails :
+    (evalShape [[2, 3]] [[]] 2 false = none ∧ docShape [[2, 3]] [[]] 2 = some [2, 3, 2]) ∧
+    (evalShape [[]] [[3, 1]] 2 false = none ∧ docShape [[]] [[3, 1]] 2 = some [3, 1, 2]) ∧
+    (evalShape [[3]] [[], [3]] 3 true = none ∧ docShape [[3]] [[], [3]] 3 = some [3, 3]) ∧
+    (evalShape [[3]] [[], [3]] 3 false = some [3, 3]) := by
+  decide
